@@ -281,6 +281,14 @@ func runC10(seed int64, tier string, sc *Script) map[string]any {
 				manifests = append(manifests, n)
 			}
 		}
+		if !custom && len(manifests) > 0 && si%3 == 0 {
+			// one annotated descriptor value tagged under two names before anything else
+			m := manifests[len(manifests)-1]
+			a, b := mk("tag", m, "pair-a", true, true), mk("tag", m, "pair-b", true, true)
+			a.Ann, b.Ann = "pair", "pair"
+			prep = append(prep, a, b)
+			sc.Count("prep:one-annotated-descriptor-under-two-names")
+		}
 		if custom {
 			prep = append(prep, mk("tag", manifests[0], "v1", true, true)) // only the image is tagged
 		} else if len(manifests) > 0 {
@@ -354,7 +362,11 @@ func runC10(seed int64, tier string, sc *Script) map[string]any {
 			// one manifest under several names: a collection keeps every name
 			if len(manifests) > 0 && si%2 == 1 {
 				m := manifests[rng.Intn(len(manifests))]
-				prep = append(prep, mk("tag", m, "also-a", true, true), mk("tag", m, "also-b", true, true))
+				a, b := mk("tag", m, "also-a", true, true), mk("tag", m, "also-b", true, true)
+				if si%4 == 1 {
+					a.Ann, b.Ann = "kept", "kept" // one annotated descriptor value under both names
+				}
+				prep = append(prep, a, b)
 				sc.Count("gc:one-manifest-under-several-names")
 			}
 			victim = mk("gc", nil, "", true, true)
